@@ -12,6 +12,8 @@
 (*      forest), written in A3Parts slices by parallel TLC runs            *)
 (*   K  class family  every open-family call x access mode x SUBSET KFlags *)
 (*   A  argument family  every call x every descriptor encoding x 4 shapes *)
+(*   N  name family    names that look like something else (" (deleted)",  *)
+(*      "..b") in the string, the cwd, the descriptor's directory, aliases *)
 (*   M  memory family  representative calls x every placement of the       *)
 (*      string relative to a page boundary x short/long string             *)
 (***************************************************************************)
@@ -34,7 +36,7 @@ CompsOf(x) == LET l == LenOf(x)
                   v == x - Off(l)
               IN [j \in 1..l |-> Alpha[((v \div Pow(l - j)) % NAl) + 1]]
 
-NC == 3
+NC == 4
 NF == 8
 ASSUME NC = Len(Cwds) /\ NF = NForests /\ NF = Len(Catalogue)
 N3 == NP3 * 4 * NC * NF
@@ -44,7 +46,7 @@ Kinds == << [lo |-> "cwd", hi |-> "ones"], [lo |-> "cwd", hi |-> "zero"], [lo |-
             [lo |-> "fd",  hi |-> "zero"], [lo |-> "fd",  hi |-> "junk"], [lo |-> "fd",  hi |-> "ones"],
             [lo |-> "bad", hi |-> "zero"] >>
 NK == 7
-ND == 5
+ND == 8
 NSys == 26
 ASSUME NK = Len(Kinds) /\ ND = Len(DirPaths) /\ NSys = Len(Syscalls)
 NoD == [lo |-> "none", hi |-> "zero", dirp |-> <<>>]
@@ -95,7 +97,7 @@ WCase(i, ra, rb, rc) ==
       ps2c  == PS(((rb \div 400) % 2) = 1, CompsOf(x2), ((rb \div 800) % 2) = 1)
       ps2   == IF WellFormed(ps2c) THEN ps2c ELSE [ps2c EXCEPT !.abs = TRUE]
       d2    == DK(((rb \div 1600) % NK) + 1, ((rb \div 11200) % ND) + 1)
-      ps1   == WithPre(ps0, (rb \div 56000) % 8, ((rb \div 11200) % ND) + 1)
+      ps1   == WithPre(ps0, (rb \div 89600) % 8, ((rb \div 11200) % ND) + 1)
       ps    == Placed(ps1, (rc % NM) + 1, Pads[((rc \div (NM * NM)) % 4) + 1])
       ps2p  == Placed(ps2, ((rc \div NM) % NM) + 1, Pads[((rc \div (NM * NM * 4)) % 4) + 1])
   IN Mk(IF WellFormed(ps0) THEN "W" ELSE "skip", f, cwd, sc, acc, fl, d1, ps, d2, ps2p)
@@ -146,7 +148,19 @@ MCases ==
        DK(1, 1), Placed(Shapes[s], m, pad), DK(2, 1), Placed(Shapes[5 - s], ((m + 4) % NM) + 1, 3000 - pad)) :
       sc \in MSys, m \in 2..NM, s \in {2, 3}, pad \in {0, 3000} }
 
-Cases == WAll3 \o (IF Rest THEN WSel \o SetToSeq(KCases) \o SetToSeq(ACases) \o SetToSeq(MCases) ELSE <<>>)
+\* ---- N: name classes (see Skeleton) as components of the string, of the cwd, of the directory behind a
+\* descriptor and of a procfs alias
+NShapes == << PS(FALSE, <<"a">>, FALSE), PS(FALSE, <<"b (deleted)">>, FALSE), PS(FALSE, <<"b", "nx (deleted)">>, FALSE),
+              PS(FALSE, <<"..", XD, "b">>, TRUE), PS(TRUE, r(<<XD, "b (deleted)">>), FALSE),
+              PS(FALSE, <<"..b", "a">>, FALSE), PS(FALSE, <<"..", "a", "a", "b (deleted)", "a">>, FALSE) >>
+NameSys == {"open", "openat", "newfstatat", "unlinkat", "renameat", "execve"}
+NCases ==
+  { Mk("N", f, Cwds[c], sc, 0, IF sc \in OpenFamily THEN {} ELSE AtChoices(sc)[1],
+       DK(k, d), WithPre(NShapes[s], x, d), DK(k, ((d - 5) % 3) + 6), NShapes[(s % 7) + 1]) :
+      f \in {1}, c \in {1, 4}, sc \in NameSys, k \in {1, 4}, d \in 6..8, s \in 1..7, x \in {0, 6} }
+
+Cases == WAll3 \o (IF Rest THEN WSel \o SetToSeq(KCases) \o SetToSeq(ACases) \o SetToSeq(MCases)
+                                \o SetToSeq(NCases) ELSE <<>>)
 
 Forests == [ i \in 1..NF |-> [id |-> i,
                nodes |-> SetToSeq({ [p |-> p, t |-> Forest(i)[p].t, abs |-> Forest(i)[p].abs, tgt |-> Forest(i)[p].tgt] :
